@@ -82,8 +82,9 @@ def readFramesAtTime(
     params = audiofile.getparams()
     frameRate = params[2]
 
-    audiofile.setpos(round(frameRate * startTime))
-    frames = audiofile.readframes(round(frameRate * (endTime - startTime)))
+    startFrame = round(frameRate * startTime)
+    audiofile.setpos(startFrame)
+    frames = audiofile.readframes(round(frameRate * endTime) - startFrame)
 
     return frames
 
